@@ -172,7 +172,17 @@ impl crate::platform::Arch for ElfX86_64 {
                     return None;
                 }
 
-                if is_absolute || is_absolute_address {
+                // The rewritten REX.W instructions below sign-extend their 32-bit immediate, but the
+                // value of an absolute symbol can be anything (e.g. 0x8000_0000, which would pass
+                // the unsigned range check of R_X86_64_32 and then be sign-extended by the CPU, or
+                // a value that doesn't fit in 32 bits at all). We don't know the value here, so
+                // leave the GOT load alone, which is always correct. GNU ld only relaxes these when
+                // the value fits.
+                if is_absolute {
+                    return None;
+                }
+
+                if is_absolute_address {
                     let inst_offset = if relocation_kind == object::elf::R_X86_64_REX_GOTPCRELX {
                         3
                     } else {
@@ -239,7 +249,9 @@ impl crate::platform::Arch for ElfX86_64 {
                     }
                     _ => {}
                 }
-                if !interposable {
+                // A PC-relative call/jmp to an absolute symbol would be off by the load bias in a
+                // position-independent output, so keep going via the GOT in that case.
+                if !interposable && !(is_absolute && output_kind.is_relocatable()) {
                     match section_bytes.get(offset - 2..offset)? {
                         // call *x(%rip)
                         [0xff, 0x15] => {
@@ -262,7 +274,10 @@ impl crate::platform::Arch for ElfX86_64 {
                 }
                 return None;
             }
-            object::elf::R_X86_64_GOTPCREL if !interposable && offset >= 2 => {
+            // `lea x(%rip)` of an absolute symbol would be off by the load bias in a
+            // position-independent output and might be out of range otherwise, so we don't relax
+            // references to absolute symbols here.
+            object::elf::R_X86_64_GOTPCREL if !interposable && !is_absolute && offset >= 2 => {
                 match section_bytes.get(offset - 2)? {
                     // mov *x(%rip), reg
                     0x8b => {
